@@ -1,0 +1,9 @@
+//go:build !verif
+
+package util
+
+import gotime "time"
+
+func verifInterval(interval gotime.Duration) gotime.Duration { return interval }
+
+func verifStop(int64) bool { return false }
